@@ -26,7 +26,8 @@ RULE = ('kernel/exhaustive: every free/blocked layout (blocked = barrier value o
         'one gap), snap on/off, ascending/descending coordinates with steps 1, 0.1, 0.25, 1/3, 0.5, 2, 30 and offsets, points on '
         'cell centres, off-centre, exactly between centres and within half a cell outside the first/last centre, with and without '
         'a res attribute, float64 and int64 rasters; pixel: _get_pixel_id alone on the same coordinate families; '
-        'barrier lists of 0-4 values in every order (ascending, descending, shuffled, with duplicates), each value present on the '
+        'sequences in one process: a raster without res is routed, then a strided / re-scaled / windowed view of the same DataArray, every call '
+        'checked by the oracle on the cells\' own coordinates plus an attrs snapshot of the input before/after; barrier lists of 0-4 values in every order (ascending, descending, shuffled, with duplicates), each value present on the '
         'surface; far-island snapping: 4x4 ... 6x6 rasters whose only crossable cells sit in one corner, the end point in the opposite '
         'corner (kernel-level _find_nearest_pixel and the public API); a sample of detour cases is first run in a child process with a timeout so that a non-terminating search loop is reported as a failing input. A case is non-trivial when it has >= 1 '
         'crossable cell; cases are distinct by their JSON encoding.')
@@ -304,9 +305,10 @@ def _point(p, kind):
     return (p[0], p[1])
 
 
-def run_api(case):
-    """-> ('ok', 2-D list of floats) | ('err', code)"""
+def run_api(case, agg=None):
+    """-> ('ok', 2-D list of floats) | ('err', code); agg: call on this DataArray instead of building one from the case"""
     from xrspatial import a_star_search
+    given = agg
     data = np.array(case['data'], dtype='float64')
     if case.get('dtype', 'float64') != 'float64':
         data = data.astype(case['dtype'])
@@ -330,6 +332,8 @@ def run_api(case):
         cdt = 'int64'
     agg = xr.DataArray(data, dims=[ydim, xdim], coords={ydim: np.array(case['ys'], dtype='float64').astype(cdt),
                                                          xdim: np.array(case['xs'], dtype='float64').astype(cdt)}, attrs=attrs)
+    if given is not None:
+        agg = given
     barriers = list(case['barriers'])
     if case.get('barrier_kind') == 'int' and all(not isnan(b) and not math.isinf(b) and float(b).is_integer() for b in barriers):
         barriers = [int(b) for b in barriers]
@@ -1126,6 +1130,102 @@ def _canary_main(cf, pfile):
         run_api(_norm(c))
 
 
+def build_agg(case):
+    ydim, xdim = case.get('dims', ['y', 'x'])
+    return xr.DataArray(np.array(case['data'], dtype='float64'), dims=[ydim, xdim],
+                        coords={ydim: np.array(case['ys'], dtype='float64'), xdim: np.array(case['xs'], dtype='float64')},
+                        attrs=dict(case.get('attrs') or {}))
+
+
+def derive(agg, how):
+    ydim, xdim = agg.dims
+    if how[0] == 'stride':
+        return agg[::how[1], ::how[2]]
+    if how[0] == 'rescale':                    # the same cells on rescaled / shifted coordinates
+        return agg.assign_coords({ydim: agg[ydim] * how[1] + how[2], xdim: agg[xdim] * how[1] - how[2]})
+    if how[0] == 'window':
+        return agg[how[1]:, how[2]:]
+    return agg
+
+
+def run_sequence(case):
+    """a raster WITHOUT a res attribute is routed, then a derived view of the SAME DataArray (strided, re-scaled coordinates,
+    window) is routed in the same process.  -> (list of (sub-case as an ordinary api case, result), attrs before, attrs after)"""
+    agg = build_agg(case)
+    before = dict(agg.attrs)
+    out = []
+    cur = agg
+    for step in case['steps']:
+        cur = derive(cur, step['derive'])
+        ydim, xdim = cur.dims
+        ys = [float(v) for v in cur[ydim].values]
+        xs = [float(v) for v in cur[xdim].values]
+        s, g = step['start_cell'], step['goal_cell']
+        if not ys or not xs:
+            continue
+        s = (min(s[0], len(ys) - 1), min(s[1], len(xs) - 1))
+        g = (min(g[0], len(ys) - 1), min(g[1], len(xs) - 1))
+        sub = dict(fn='api', data=[[float(v) for v in row] for row in cur.values.tolist()], barriers=case['barriers'],
+                   conn=case['conn'], snap_start=step.get('snap_start', False), snap_goal=step.get('snap_goal', False),
+                   ys=ys, xs=xs, res=None, dims=list(cur.dims), fam='centre',
+                   start=[ys[s[0]], xs[s[1]]], goal=[ys[g[0]], xs[g[1]]])      # the cells' OWN coordinates
+        out.append((sub, run_api(sub, agg=cur)))
+    return out, before, dict(agg.attrs)
+
+
+def check_sequence(ctx, case, model_pending=None):
+    subs, before, after = run_sequence(case)
+    for i, (sub, res) in enumerate(subs):
+        if len(sub['ys']) < 2 or len(sub['xs']) < 2:
+            continue                            # resolution of a single row/column is undefined without res
+        o = oracle_api(sub, res)
+        if o is not None:
+            ctx.violation('oracle', 'a_star_search, call %d of a sequence on one raster (%s): %s' % (
+                i + 1, ' then '.join(str(st['derive']) for st in case['steps'][:i + 1]), o[0]),
+                dict(case, failing_call=i + 1, sub_case=sub, got=res[1]), key=None)
+            return
+        if model_pending is not None:
+            model_pending.append((full_line(sub), res, dict(case, failing_call=i + 1, sub_case=sub)))
+    if sorted(before) != sorted(after) or any(repr(before[k]) != repr(after[k]) for k in before):
+        ctx.violation('oracle', 'a_star_search changed the attrs of its input raster: %r -> %r (a later call on a derived view '
+                      'then uses them instead of its coordinates)' % (before, after), dict(case, attrs_after=repr(after)), key=None)
+
+
+def gen_sequence(rng):
+    h, w = rng.randint(4, 9), rng.randint(4, 9)
+    lay = [[1.0 if rng.random() < 0.85 else 0.0 for _ in range(w)] for _ in range(h)]
+    data, barriers = decorate(rng, lay)
+    ys, _ = axis(rng, h)
+    xs, _ = axis(rng, w)
+    derivs = [('stride', 2, 2), ('stride', 1, 3), ('stride', 2, 1), ('stride', 3, 2), ('rescale', rng.choice([2.0, 0.5, 10.0]), rng.choice([0.0, 5.0])),
+              ('window', 1, 2), ('stride', 2, 2)]
+    steps = [dict(derive=('none',), start_cell=[rng.randrange(h), rng.randrange(w)], goal_cell=[rng.randrange(h), rng.randrange(w)])]
+    for _ in range(rng.choice([1, 1, 2])):
+        steps.append(dict(derive=rng.choice(derivs), start_cell=[rng.randrange(h), rng.randrange(w)],
+                          goal_cell=[rng.randrange(h), rng.randrange(w)],
+                          snap_start=rng.random() < 0.3, snap_goal=rng.random() < 0.3))
+    return dict(fn='sequence', data=data, barriers=barriers, conn=rng.choice([4, 8]), ys=ys, xs=xs,
+                dims=rng.choice([['y', 'x'], ['lat', 'lon']]), attrs=rng.choice([{}, {}, {'crs': 'EPSG:4326', 'nodata': -1}]),
+                steps=steps)
+
+
+def sequence_cases(ctx, n):
+    pending = []
+    for i in range(n):
+        case = gen_sequence(ctx.rng)
+        ctx.case(case)
+        ctx.count('sequence/%s' % '+'.join(st['derive'][0] for st in case['steps'][1:]))
+        check_sequence(ctx, case, pending)
+    if ctx.model is not None and pending:
+        outs = ctx.model.run([p[0] for p in pending])
+        bad = 0
+        for (line, res, case), mo in zip(pending, outs):
+            if not compare_float(ctx, 'a_star_search (sequence) vs model', res, mo, case):
+                bad += 1
+                if bad > 5:
+                    break
+
+
 def connectivity_probe(ctx):
     """connectivity is quantified over {4, 8}: equivalent spellings (8.0, np.int64(4)) must behave like 4 / 8, anything else is
     refused with ValueError by the unchanged code — it must never be silently treated as one of the two"""
@@ -1231,6 +1331,7 @@ def run(ctx):
         cases.append(c)
     api_batch(ctx, cases, 'api-edge')
     connectivity_probe(ctx)
+    sequence_cases(ctx, 200 if quick else 3000)
     pixel_cases(ctx, 300 if quick else 4000)
     exact_cases(ctx, 150 if quick else 2000)
 
@@ -1251,7 +1352,9 @@ def replay_case(ctx, case):
     case = _norm(case)
     ctx.case(case)
     fn = case.get('fn')
-    if fn == 'api':
+    if fn == 'sequence':
+        check_sequence(ctx, case)
+    elif fn == 'api':
         res = run_api(case)
         o = oracle_api(case, res)
         if o is not None:
